@@ -117,8 +117,12 @@ def main():
         if not re.search(r"rhs_val\s*>=\s*0", body) or not re.search(r"if\s+rhs_val\s*>=\s*64\s*\{\s*0\s*\}\s*else\s*\{\s*lhs_val\s*" + re.escape(opx) + r"\s*rhs_val\s*\}", body):
             raise TranslateError(f"IR::{name}: folding rule `rhs_val >= 0 && (if rhs_val >= 64 {{0}} else {{lhs_val {opx} rhs_val}})` not found")
     body = re.sub(r"\s+", " ", strip_comments(fn_body(impl, "minus")))
-    if not re.search(r"const_integer_from\(\s*-v\s*\)", body):
-        raise TranslateError("IR::minus: `const_integer_from(-v)` not found")
+    if re.search(r"const_integer_from\(\s*v\.wrapping_neg\(\)\s*,?\s*\)", body):
+        minus_wraps = True
+    elif re.search(r"const_integer_from\(\s*-v\s*\)", body):
+        minus_wraps = False          # plain `-v`: overflow panic on i64::MIN when overflow checks are on
+    else:
+        raise TranslateError("IR::minus: neither `const_integer_from(-v)` nor `const_integer_from(v.wrapping_neg())` found")
 
     b = lambda x: "true" if x else "false"
     out = f"""(* GENERATED by translate/gen_fold.py from lib/src/compiler/ir/mod.rs
@@ -137,6 +141,10 @@ Definition range_hi_int : Z := {hi}.
 Definition add_uses_fold_arithmetic : bool := {b(uses['add'])}.
 Definition sub_uses_fold_arithmetic : bool := {b(uses['sub'])}.
 Definition mul_uses_fold_arithmetic : bool := {b(uses['mul'])}.
+
+(* IR::minus folds `-v` with wrapping_neg (false: plain `-v`, which panics on i64::MIN
+   when overflow checks are on) *)
+Definition minus_wraps : bool := {b(minus_wraps)}.
 
 (* comparison constructors (eq ne lt le gt ge) are not folded *)
 Definition comparisons_folded : bool := {b(any(flags[n] for n in ('eq', 'ne', 'lt', 'le', 'gt', 'ge')))}.
